@@ -220,6 +220,12 @@ Proof.
     + eapply IH; [|exact Hr|exact R]. lia.
 Qed.
 
+Lemma seq_align_nonneg : forall al off o1, 0 < al -> 0 <= off -> seq_align al off = Some o1 -> 0 <= o1.
+Proof.
+  intros al off o1 Hal Ho H. destruct (seq_align_min al off Hal) as (d & E & Hd & _).
+  rewrite E in H. injection H as <-. lia.
+Qed.
+
 Section StrictFields.
 Variable host : bool.
 Variable raw : bytes.
@@ -262,12 +268,6 @@ Proof.
       injection H as <- <- <-. exact (Hrec _ _ _ _ _ Ho E).
     + destruct (unpack_leaf host raw empty_conf c name l s off) as [[[v o1] t1]|x] eqn:E; [|discriminate H].
       injection H as <- <- <-. exact (unpack_leaf_ok _ _ _ _ _ _ _ _ _ Ho E).
-Qed.
-
-Lemma seq_align_nonneg : forall al off o1, 0 < al -> 0 <= off -> seq_align al off = Some o1 -> 0 <= o1.
-Proof.
-  intros al off o1 Hal Ho H. destruct (seq_align_min al off Hal) as (d & E & Hd & _).
-  rewrite E in H. injection H as <-. lia.
 Qed.
 
 Lemma unpack_count_ok : forall cf c i e al, 0 < al -> forall k s off t s' o' t', 0 <= off -> tr_ok t ->
